@@ -10,15 +10,17 @@ Inductive reason := RTimeout | RError.       (* CLIENT UNBLOCK id TIMEOUT | ERRO
 Record cap := mkCap {
   c_blocked : bool;            (* CS_CAPTURED *)
   c_pending : bool;            (* unblockPending *)
-  c_mail : option reason       (* the one-slot mailbox unblockCh *)
+  c_mail : option reason;      (* the one-slot mailbox unblockCh *)
+  c_closing : bool             (* the connection was asked to close (clientCxn.closing); never reset *)
 }.
-Definition cap0 : cap := mkCap false false None.
+Definition cap0 : cap := mkCap false false None false.
 
 Inductive cop :=
 | OCapture                     (* the blocking command is about to wait *)
 | ORecv                        (* its select takes the message from the mailbox *)
 | ORelease                     (* it stopped waiting (for whatever reason): drain and reset *)
-| OUnblock (r : reason)        (* CLIENT UNBLOCK / connection teardown, from any goroutine *)
+| OUnblock (r : reason)        (* CLIENT UNBLOCK, from any goroutine *)
+| OCloseReq                    (* connection teardown (peer gone, CLIENT KILL, termination): RequestClose, then unblock *)
 | OIsBlocked.                  (* CLIENT LIST / INFO flag *)
 
 (* result: new state and what the operation returns/receives *)
@@ -26,17 +28,27 @@ Inductive cres := CNone | CBool (b : bool) | CReason (r : reason).
 
 Definition cstep (c : cap) (o : cop) : option (cap * cres) :=
   match o with
-  | OCapture => if c_blocked c then None else Some (mkCap true (c_pending c) (c_mail c), CNone)
+  | OCapture =>
+    if c_blocked c then None
+    else if c_closing c && negb (c_pending c)
+         (* the teardown's unblock came before the capture and found nothing: the capture posts it itself *)
+         then Some (mkCap true true (Some RTimeout) true, CNone)
+         else Some (mkCap true (c_pending c) (c_mail c) (c_closing c), CNone)
   | ORecv => match c_blocked c, c_mail c with
-             | true, Some r => Some (mkCap true (c_pending c) None, CReason r)
+             | true, Some r => Some (mkCap true (c_pending c) None (c_closing c), CReason r)
              | _, _ => None
              end
-  | ORelease => if c_blocked c then Some (mkCap false false None, CNone) else None
+  | ORelease => if c_blocked c then Some (mkCap false false None (c_closing c), CNone) else None
   | OUnblock r =>
     if c_blocked c then
       if c_pending c then Some (c, CBool true)
-      else Some (mkCap true true (Some r), CBool true)
+      else Some (mkCap true true (Some r) (c_closing c), CBool true)
     else Some (c, CBool false)
+  | OCloseReq =>
+    if c_blocked c then
+      if c_pending c then Some (mkCap true true (c_mail c) true, CBool true)
+      else Some (mkCap true true (Some RTimeout) true, CBool true)
+    else Some (mkCap false (c_pending c) (c_mail c) true, CBool false)
   | OIsBlocked => Some (c, CBool (c_blocked c))
   end.
 
